@@ -17,8 +17,10 @@ from ..terms import valida
 from .c09 import IMPORTS
 
 PROP = "C10"
-THEOREMS = []
-FACT_LEMMAS = []
+THEOREMS = ["C10_suffixes_commute", "C10_suffix_alone", "C10_shorthand_is_long_form", "C10_part_long_forms", "C10_part_spec_lists",
+            "C10_path_strings", "C10_path_string_tokens"]
+FACT_LEMMAS = ["C10Proof / C09Proof table facts (closed computations on the generated tables)"]
+DEPENDS = ['Py.v', 'Lang.v', 'Defs.v', 'Cond.v', 'Dsl.v', 'Check.v', 'DocSem.v', 'Inst.v', 'Gen/TablesGen.v', 'Gen/CallablesGen.v', 'Gen/SpecGen.v', 'Path.v', 'Cast.v', 'Str.v', 'SpecDefs.v', 'RuleDefs.v', 'Rule.v', 'Spec.v', 'SpecIO.v', 'Eq.v', 'FromStr.v', 'RunSpec.v', 'SpecSpell.v', 'RuleTerms.v', 'Proofs/Tie.v', 'Proofs/PyFacts.v', 'Proofs/C02Proof.v', 'Proofs/RuleProof.v', 'Proofs/C09Proof.v', 'Proofs/C10Proof.v', 'Properties/C10.v']
 ASSUMPTIONS = ["Layer P models CPython's operators (pysem)", "float(str) in DataPath.from_str is an oracle (CPython's own outcome per token)",
                "YAML text -> Python structure is ruamel.yaml's and is outside the model (exercised by correspondence only)"]
 
@@ -82,7 +84,29 @@ def run(tier, seed, model_ok, spec_ok, replay=None):
 
     for i in range(n):
         doc = g.document(3, 4)
-        pt = normalise_path(limit_parts(pg.path(doc, max_len=3, mods_p=0.4)))
+        raw = pg.path(doc, max_len=3, mods_p=0.4)
+        three = [copy.deepcopy(p) for p in raw.parts if sum(1 for a in (getattr(p, "kw", None) or {}).values() if a is not None) > 2]
+        pt = normalise_path(limit_parts(raw))
+        # ---- parts with three or more components (known finding D43: equal behaviour, but == is not associative)
+        for part in three[:1]:
+            part = normalise_path(PathT([part])).parts[0]
+            ps = sg.part_spec(part)
+            if ps is None:
+                continue
+            try:
+                api = part.build()
+                parsed = v.datapath.ContainerValue.from_spec(copy.deepcopy(ps))
+            except Exception:
+                continue
+            kinds["part3"] += 1
+            a = E.run_outcome(lambda: v.DataPath(parsed).get_data(copy_value(doc), return_paths=True))
+            b = E.run_outcome(lambda: v.DataPath(api).get_data(copy_value(doc), return_paths=True))
+            if a != b:
+                direct.append({"kind": "direct", "what": "three-component part: parsed and API-built parts select differently",
+                               "spec": jval(ps), "doc": jval(doc)})
+            elif not (parsed == api):
+                direct.append({"kind": "direct", "what": "part spec does not build an object equal to the API-built part",
+                               "spec": jval(ps), "api": part.descr()[:300], "flags": ["three-component-part"]})
         # ---- part specs
         for part in pt.parts:
             if isinstance(part, Prim):
@@ -200,4 +224,5 @@ def run(tier, seed, model_ok, spec_ok, replay=None):
 
 
 def matches_known(known, case):
-    return False
+    f = known.get("match", {}).get("flag")
+    return bool(f) and f in case.get("flags", [])
